@@ -16,7 +16,7 @@ DESCRIPTION = {
              "spec versions, subprotocol lists, origins, extension offers x accept policies.  Oracle: valid => 101 with independently computed Sec-WebSocket-Accept, "
              "subprotocol from the client's list, extensions subset of the offer, onOpen exactly once; mutated => never open, an HTTP error and/or a dropped transport; no "
              "exception leaves dataReceived/data_received or reaches the loop; the verdict is the same under every segmentation; an endpoint that opened on arbitrary bytes "
-             "must have received a request that an independent validator accepts.  Non-trivial = exactly one corrupted required element, arbitrary bytes containing CRLFCRLF, "
+             "must have received a request that an independent validator accepts.  Thorough tier adds an atheris (libFuzzer) target over (d) for both roles.  Non-trivial = exactly one corrupted required element, arbitrary bytes containing CRLFCRLF, "
              "or an origin adjacent to an allowed pattern; distinct by (mutation, element, config digest)."),
     "assumptions": ["duplicate Upgrade/Connection headers, HTTP versions above 1.1 and non-canonical base64 padding bits are don't-cares (must not crash, segmentation-independent)"],
 }
@@ -32,6 +32,9 @@ def plan(tier, seed):
             jobs.append({"func": "server_side", "fw": fw, "name": "server/%s/%d" % (fw, sh), "args": {"seed": seed * 1000 + i * 100 + sh, "n": 350 if q else 3000}})
             jobs.append({"func": "client_side", "fw": fw, "name": "client/%s/%d" % (fw, sh), "args": {"seed": seed * 1000 + i * 100 + 20 + sh, "n": 300 if q else 3000}})
         jobs.append({"func": "robustness", "fw": fw, "name": "robust/%s" % fw, "args": {"seed": seed * 1000 + i * 100 + 40, "n": 500 if q else 6000}})
+        if not q:
+            for sh in range(2):
+                jobs.append({"func": "fuzz", "fw": fw, "name": "fuzz/handshake/%s/%d" % (fw, sh), "args": {"target": "handshake", "runs": 8000 if fw == "twisted" else 4000, "seed": seed * 1000 + i * 100 + 80 + sh}, "timeout": 3000})
         jobs.append({"func": "interop", "fw": fw, "name": "interop/%s" % fw, "args": {"seed": seed * 1000 + i * 100 + 60, "n": 150 if q else 1500}})
     jobs.append({"func": "urls", "fw": "twisted", "name": "urls", "args": {"seed": seed * 1000 + 90, "n": 300 if q else 3000}})
     return jobs
@@ -565,6 +568,49 @@ def urls(col, seed, n):
 
 # ---------------------------------------------------------------- (d) robustness
 
+def robust_one(col, role, data, split, webstatus, judge_client_open=True):
+    """junk octets into an endpoint that awaits the opening handshake: nothing escapes, no session opens on invalid octets, same verdict under every split"""
+    from harness import drv, wsutil
+    case = {"check": "robust", "role": role, "data": data, "split": split, "webstatus": webstatus}
+    results = []
+    for sp in ("one", split) if split != "one" else ("one",):
+        d = drv.get_driver()
+        try:
+            if role == "server":
+                side = wsutil.server(d, opts={"webStatus": webstatus, "openHandshakeTimeout": 0})
+            else:
+                side = wsutil.client(d, opts={"openHandshakeTimeout": 0})
+            ep = side.connect()
+            d.settle()
+            ep.take()
+            if sp == "one":
+                ep.feed(data)
+            elif sp == "bytes":
+                step = 1 if len(data) < 2000 else 997
+                for i in range(0, len(data), step):
+                    ep.feed(data[i:i + step])
+            else:
+                ep.feed(data[:len(data) // 2])
+                ep.feed(data[len(data) // 2:])
+            d.settle()
+            esc = list(ep.escaped) + list(d.loop_errors)
+            if esc:
+                e = esc[0]
+                ek = exc_key(e) if isinstance(e, Exception) else ("loop|" + (exc_key(e.get("exception")) if isinstance(e, dict) and e.get("exception") else "?"))
+                raise Violation("C07|robust|%s|exception-escaped|%s" % (role, ek), "%r on %r" % (e, data[:80]), case)
+            opened = side.count("open")
+            if opened and role == "server" and not ref_request_valid(data, {"versions": [8, 13]}):
+                raise Violation("C07|robust|server-opened-on-invalid-octets", repr(data[:120]), case)
+            if opened and role == "client" and judge_client_open:
+                raise Violation("C07|robust|client-opened-on-junk", repr(data[:120]), case)
+            results.append((opened, bool(ep.drop_requested)))
+        finally:
+            d.close()
+    if len(set(results)) > 1:
+        raise Violation("C07|robust|segmentation-dependent-verdict", "%r for %r" % (results, data[:80]), case)
+    col.case(b"\r\n\r\n" in data, dig=[role, data, webstatus], cls=["robust/" + role + ("/with-crlfcrlf" if b"\r\n\r\n" in data else "/no-terminator")], sample={"role": role, "data": data[:60]})
+
+
 def robustness(col, seed, n):
     from hypothesis import strategies as st
     from harness import drv, wsutil
@@ -590,45 +636,7 @@ def robustness(col, seed, n):
     strat = st.tuples(st.sampled_from(["server", "server", "client"]), junk, st.sampled_from(["one", "bytes", "halves"]), st.booleans())
 
     def body(t):
-        role, data, split, webstatus = t
-        case = {"check": "robust", "role": role, "data": data, "split": split, "webstatus": webstatus}
-        results = []
-        for sp in ("one", split) if split != "one" else ("one",):
-            d = drv.get_driver()
-            try:
-                if role == "server":
-                    side = wsutil.server(d, opts={"webStatus": webstatus, "openHandshakeTimeout": 0})
-                else:
-                    side = wsutil.client(d, opts={"openHandshakeTimeout": 0})
-                ep = side.connect()
-                d.settle()
-                ep.take()
-                if sp == "one":
-                    ep.feed(data)
-                elif sp == "bytes":
-                    step = 1 if len(data) < 2000 else 997
-                    for i in range(0, len(data), step):
-                        ep.feed(data[i:i + step])
-                else:
-                    ep.feed(data[:len(data) // 2])
-                    ep.feed(data[len(data) // 2:])
-                d.settle()
-                esc = list(ep.escaped) + list(d.loop_errors)
-                if esc:
-                    e = esc[0]
-                    ek = exc_key(e) if isinstance(e, Exception) else ("loop|" + (exc_key(e.get("exception")) if isinstance(e, dict) and e.get("exception") else "?"))
-                    raise Violation("C07|robust|%s|exception-escaped|%s" % (role, ek), "%r on %r" % (e, data[:80]), case)
-                opened = side.count("open")
-                if opened and role == "server" and not ref_request_valid(data, {"versions": [8, 13]}):
-                    raise Violation("C07|robust|server-opened-on-invalid-octets", repr(data[:120]), case)
-                if opened and role == "client":
-                    raise Violation("C07|robust|client-opened-on-junk", repr(data[:120]), case)
-                results.append((opened, bool(ep.drop_requested)))
-            finally:
-                d.close()
-        if len(set(results)) > 1:
-            raise Violation("C07|robust|segmentation-dependent-verdict", "%r for %r" % (results, data[:80]), case)
-        col.case(b"\r\n\r\n" in data, dig=[role, data, webstatus], cls=["robust/" + role + ("/with-crlfcrlf" if b"\r\n\r\n" in data else "/no-terminator")], sample={"role": role, "data": data[:60]})
+        robust_one(col, *t)
     run_hypothesis(col, "robust", strat, body, n, seed)
 
 
@@ -710,19 +718,39 @@ def replay(col, case):
         if c["mut"] not in ("none", "non-utf8-header", "non-utf8-reason") and obs["opened"]:
             raise Violation("C07|client|invalid-response-admitted|" + c["mut"], "", c)
     elif kind == "robust":
-        from harness import drv, wsutil
-        d = drv.get_driver()
-        try:
-            side = wsutil.server(d, opts={"webStatus": c.get("webstatus", True), "openHandshakeTimeout": 0}) if c["role"] == "server" else wsutil.client(d, opts={"openHandshakeTimeout": 0})
-            ep = side.connect()
-            d.settle()
-            ep.take()
-            ep.feed(c["data"])
-            d.settle()
-            esc = list(ep.escaped) + list(d.loop_errors)
-            if esc:
-                e = esc[0]
-                raise Violation("C07|robust|%s|exception-escaped|%s" % (c["role"], exc_key(e) if isinstance(e, Exception) else "loop"), repr(e)[:300], c)
-        finally:
-            d.close()
+        robust_one(col, c["role"], c["data"], c.get("split", "one"), c.get("webstatus", True), judge_client_open=c.get("judge_client_open", True))
+        return
     col.case()
+
+
+# ---------------------------------------------------------------- coverage-guided second opinion (atheris, thorough tier)
+
+def _fuzz_handshake_make(col):
+    """first octet: role (server / server+webStatus / client) and split; the rest is what the peer sends instead of (or as) its opening handshake"""
+    def one(data):
+        if len(data) < 1:
+            return
+        sel = data[0]
+        role, webstatus = [("server", False), ("server", True), ("client", False), ("server", True)][sel & 3]
+        split = ["one", "bytes", "halves", "one"][(sel >> 2) & 3]
+        # a client can only be opened by a response carrying the accept value for its own (random) key: not judged for fuzzed octets
+        robust_one(col, role, data[1:], split, webstatus, judge_client_open=False)
+    return one
+
+
+def _fuzz_handshake_seeds():
+    from harness import wsutil
+    req = wsutil.raw_request()
+    out = [bytes([0]) + req, bytes([1]) + req, bytes([5]) + wsutil.raw_request(version=8, origin="http://example.com"), bytes([9]) + wsutil.raw_request(extensions="permessage-deflate; client_max_window_bits"),
+           bytes([1]) + b"GET /?redirect=http%3A%2F%2Fx.org&after=3 HTTP/1.1\r\nHost: localhost:9000\r\n\r\n",
+           bytes([2]) + wsutil.raw_response(None) if False else bytes([2]) + b"HTTP/1.1 101 Switching Protocols\r\nUpgrade: websocket\r\nConnection: Upgrade\r\nSec-WebSocket-Accept: AAAAAAAAAAAAAAAAAAAAAAAAAAA=\r\n\r\n",
+           bytes([2]) + b"HTTP/1.1 404 Not Found\r\nServer: x\r\n\r\n"]
+    return out
+
+
+FUZZ = {"handshake": {"make": _fuzz_handshake_make, "seeds": _fuzz_handshake_seeds, "imports": ["autobahn.websocket.protocol", "autobahn.websocket.util", "autobahn.util"]}}
+
+
+def fuzz(col, target, runs, seed, max_len=1024):
+    from harness import fuzzjob
+    fuzzjob.run(col, "c07_ws_handshake", target, runs, seed, max_len)
